@@ -10,7 +10,11 @@ import (
 )
 
 func VH_C04_delay() {
-	retry := zz.Len("retry", 0, zz.Param("maxretry", 12))
+	// every retry count up to the bound (a permanently failing hook passes 64 retries
+	// after half an hour: shifts and powers of two overflow there)
+	maxRetry := zz.Param("maxretry", 12)
+	retry := zz.Len("retry_div32", 0, maxRetry/32)*32 + zz.Len("retry_mod32", 0, 31)
+	zz.Assume(retry <= maxRetry)
 	// as wired by the queue: initial delay 5s, default maximum
 	d := CalculateDelay(5*time.Second, retry)
 	zz.Assert(d >= 5*time.Second, "delay_not_shorter_than_initial")
